@@ -42,19 +42,35 @@ def isConst? : P → Option Rat
   | [([], c)] => some c
   | _ => none
 
-/-- normalise; anything that is not + − × literal-power is an opaque atom -/
-def ofExpr : Expr → P
+/-- exact value of a closed expression built from literals, arithmetic and exact built-ins
+    (what sympy's automatic evaluation / `_value_of` folds) -/
+def closedValue? (e : Expr) : Option Rat :=
+  if (Expr.fv e).isEmpty then Expr.eval Alg.rat (fun _ => none) e else none
+
+mutual
+/-- normalise; anything that is not + − × literal-power is an opaque atom; closed sub-expressions
+    with an exact value are folded first -/
+def ofExprCore : Expr → P
   | .num q => const q
   | .sym s => var s
-  | .neg a => scale (-1) (ofExpr a)
-  | .bin .add a b => add (ofExpr a) (ofExpr b)
-  | .bin .sub a b => add (ofExpr a) (scale (-1) (ofExpr b))
-  | .bin .mul a b => mul (ofExpr a) (ofExpr b)
-  | .bin .div a (.num q) => if q = 0 then var (toString (Expr.toSexp (.bin .div a (.num q)))) else scale q⁻¹ (ofExpr a)
+  | .neg a => scale (-1) (fold a)
+  | .bin .add a b => add (fold a) (fold b)
+  | .bin .sub a b => add (fold a) (scale (-1) (fold b))
+  | .bin .mul a b => mul (fold a) (fold b)
+  | .bin .div a (.num q) => if q = 0 then var (toString (Expr.toSexp (.bin .div a (.num q)))) else scale q⁻¹ (fold a)
   | .bin .pow a (.num q) =>
-      if q.den = 1 ∧ q.num ≥ 0 ∧ q.num ≤ 8 then pow (ofExpr a) q.num.toNat
+      if q.den = 1 ∧ q.num ≥ 0 ∧ q.num ≤ 8 then pow (fold a) q.num.toNat
       else var (toString (Expr.toSexp (.bin .pow a (.num q))))
   | e => var (toString (Expr.toSexp e))
+def fold : Expr → P
+  | e => match closedValue? e with
+    | some q => const q
+    | none => ofExprCore e
+end
+
+def ofExpr (e : Expr) : P := match closedValue? e with
+  | some q => const q
+  | none => ofExprCore e
 
 end Poly
 
